@@ -576,6 +576,32 @@ class Body:
                 return {"kind": "discr_val", "place": r["p"], "neg": neg}
         return {"kind": "unknown"}
 
+    def dead_const_edges(self):
+        """Block edges that can never be taken because the switch scrutinee is a named boolean constant of the crate
+        (`if EAGER_HANDOFF { .. }`): the edge whose label contradicts the constant's value. The constant is read from the
+        type-checked program on every run, so flipping it flips the verdicts that depend on it."""
+        if getattr(self, "_dead_edges", None) is None:
+            dead = set()
+            for blk in range(len(self.blocks)):
+                if self.is_cleanup(blk) or self.term(blk)["k"] != "switch":
+                    continue
+                ss = self.switch_source(blk)
+                if not ss or ss.get("kind") != "const":
+                    continue
+                c = ss.get("c") or {}
+                if c.get("ty") != "bool" or "v" not in c or not c.get("path"):
+                    continue
+                val = bool(c["v"]) != bool(ss.get("neg"))
+                for tgt, lab in self.succ_labeled(blk):
+                    if lab in ("true", "false") and (lab == "true") != val:
+                        dead.add((blk, tgt))
+            self._dead_edges = frozenset(dead)
+        return self._dead_edges
+
+    def live_positions(self):
+        """positions reachable from entry when compile-time-dead edges are not taken"""
+        return self.entry_reach_set(removed_edges=self.dead_const_edges())
+
     def edges_by_label(self, b):
         """label -> list of (b, target) edges for a switch block."""
         out = defaultdict(list)
